@@ -1,0 +1,29 @@
+// Copyright (c) HashiCorp, Inc.
+// SPDX-License-Identifier: MPL-2.0
+
+package types
+
+import (
+	"context"
+
+	wrapping "github.com/hashicorp/go-kms-wrapping/v2"
+)
+
+// UnknownWrappingKeyId is recorded as the wrapping key ID of a stored message
+// when the storage wrapper does not report a key ID of its own. Loading decides
+// from a non-empty wrapping key ID that a message carries wrapped values; the
+// value itself is never compared against the wrapper's.
+const UnknownWrappingKeyId = "unknown"
+
+// storageWrapperKeyId returns the key ID to record in a message that is about
+// to be stored with values wrapped by the given wrapper
+func storageWrapperKeyId(ctx context.Context, wrapper wrapping.Wrapper) (string, error) {
+	keyId, err := wrapper.KeyId(ctx)
+	if err != nil {
+		return "", err
+	}
+	if keyId == "" {
+		keyId = UnknownWrappingKeyId
+	}
+	return keyId, nil
+}
